@@ -204,7 +204,8 @@ sig_where(char *buf, size_t bsz)
 	if (xr_sig == SIGALRM) {
 		snprintf(buf, bsz, "%s, last specifier %s", xg_signame(xr_sig), tok);
 	} else if (xr_sig == SIGABRT) {
-		snprintf(buf, bsz, "%s, last specifier %s", xg_signame(xr_sig), tok);
+		/* raised after the specifier loop (assertions on the collected fields): no specifier to blame */
+		snprintf(buf, bsz, "%s", xg_signame(xr_sig));
 	} else {
 		snprintf(buf, bsz, "%s in %s, last specifier %s", xg_signame(xr_sig), xs_name(xr_sig_pc, site, sizeof(site)), tok);
 	}
@@ -309,7 +310,12 @@ parse_case(int func, const char *fmt, size_t flen, const char *inp, size_t ilen,
 		xt_fmt_hi = pfb ? pfb + flen + 1 : NULL;
 		xt_fp = xt_ep = xt_in_fp = xt_in_ep = NULL;
 		rcb = do_parse(func, pfb, pib, &b);
-		xt_label_last(tok, sizeof(tok));
+		if (xr.n && xr.r[0].tok[0]) {
+			/* the exact-size run saw the specifier that left its block */
+			snprintf(tok, sizeof(tok), "%s", xr.r[0].tok);
+		} else {
+			xt_label_last(tok, sizeof(tok));
+		}
 		if (!rcb) {
 			pfb = fmt ? xa_place_fill(&xa_fmt, fmt, flen + 1, FILL_FMT_B, sizeof(FILL_FMT_B)) : NULL;
 			pib = xa_place_fill(&xa_inp, inp, ilen + 1, FILL_INP_B, sizeof(FILL_INP_B));
@@ -338,7 +344,7 @@ parse_case(int func, const char *fmt, size_t flen, const char *inp, size_t ilen,
 					whose = "format";
 				}
 			}
-			snprintf(key, sizeof(key), "%s%s: result depends on the bytes behind the terminator of the %s%s, last specifier %s", fn, fmt ? "" : " (no format)",
+			snprintf(key, sizeof(key), "%s%s: result depends on the bytes behind the terminator of the %s%s, specifier %s", fn, fmt ? "" : " (no format)",
 				 whose, (b.unk != c.unk) ? " (date or not)" : b.unk ? "" : " (which date)", tok);
 			report(key, ord, cas, *cmd ? cmd : NULL,
 			       "%s(\"%s\", %s%s%s): with '%s...' behind the terminators the result is %s (end offset %ld), with other bytes %s (end offset %ld)",
@@ -485,6 +491,8 @@ format_case(int func, const char *fmt, size_t flen, int vi, int bsz)
 	int rc, bad = 0, canary;
 	char outcopy[BSZ_MAX + 8];
 	size_t ncopy = 0;
+	/* ordered coordinate: the buffer size; the format length breaks ties so that the smallest example is the simplest */
+	double ord = (double)bsz + (double)(flen < 99 ? flen : 99) / 100.0;
 
 	if (xb_skip()) {
 		return 0;
@@ -524,12 +532,12 @@ format_case(int func, const char *fmt, size_t flen, int vi, int bsz)
 	if (rc) {
 		char sw[128], fc[48];
 		snprintf(key, sizeof(key), "%s: %s%s%s", fn, sig_where(sw, sizeof(sw)), fmt_class(fmt, flen, fc, sizeof(fc)), bsz < 0 ? " [buffer NULL]" : "");
-		report(key, (double)bsz, cas, *cmd ? cmd : NULL, "%s(%s, %d, \"%s\", %s): %s", fn, bsz < 0 ? "NULL" : "buf", bsz < 0 ? 16 : bsz, fe, value_name(func, vi), sw);
+		report(key, ord, cas, *cmd ? cmd : NULL, "%s(%s, %d, \"%s\", %s): %s", fn, bsz < 0 ? "NULL" : "buf", bsz < 0 ? 16 : bsz, fe, value_name(func, vi), sw);
 		return xg_must_restart();
 	}
 	for (int i = 0; i < xr.n; i++) {
 		snprintf(key, sizeof(key), "%s: %s in %s, specifier %s", fn, xr.r[i].kind, xr.r[i].site, xr.r[i].tok[0] ? xr.r[i].tok : "-");
-		report(key, (double)bsz, cas, *cmd ? cmd : NULL,
+		report(key, ord, cas, *cmd ? cmd : NULL,
 		       "%s(buf, %d, \"%s\", %s) with the format in an exact-size block and a buffer of exactly %d bytes: %s, distance %ld (in %s, while on specifier %s); returned %zu",
 		       fn, bsz, fe, value_name(func, vi), bsz < 0 ? 0 : bsz, xr.r[i].kind, xr_dist, xr.r[i].site, xr.r[i].tok[0] ? xr.r[i].tok : "-", n);
 		bad = 1;
@@ -538,12 +546,12 @@ format_case(int func, const char *fmt, size_t flen, int vi, int bsz)
 		char tok[32], fc[48];
 		xt_label_last(tok, sizeof(tok));
 		snprintf(key, sizeof(key), "%s: return value exceeds the buffer size, last specifier %s%s", fn, tok, tok[0] == '-' ? fmt_class(fmt, flen, fc, sizeof(fc)) : "");
-		report(key, (double)bsz, cas, *cmd ? cmd : NULL, "%s(buf, %d, \"%s\", %s) returned %zu", fn, bsz, fe, value_name(func, vi), n);
+		report(key, ord, cas, *cmd ? cmd : NULL, "%s(buf, %d, \"%s\", %s) returned %zu", fn, bsz, fe, value_name(func, vi), n);
 		bad = 1;
 	}
 	if (xr.n == 0 && canary) {
 		snprintf(key, sizeof(key), "%s: bytes outside the output buffer changed (write not seen by the instrumentation)", fn);
-		report(key, (double)bsz, cas, *cmd ? cmd : NULL, "%s(buf, %d, \"%s\", %s): byte at offset %ld of the buffer was overwritten", fn, bsz, fe,
+		report(key, ord, cas, *cmd ? cmd : NULL, "%s(buf, %d, \"%s\", %s): byte at offset %ld of the buffer was overwritten", fn, bsz, fe,
 		       value_name(func, vi), where);
 		bad = 1;
 	}
@@ -658,9 +666,21 @@ valid_text(const char *fmt, size_t flen, char *out, size_t osz)
 	return n;
 }
 
+static char g_mode;
 static size_t
 get_format(uint64_t idx, uint64_t nenum, char *buf)
 {
+	if (g_mode == 'S' || g_mode == 'Q') {
+		/* single specifiers, then ordered pairs */
+		if (idx < XC_NSPECS) {
+			strcpy(buf, xc_specs[idx]);
+		} else {
+			idx -= XC_NSPECS;
+			strcpy(buf, xc_specs[idx / XC_NSPECS]);
+			strcat(buf, xc_specs[idx % XC_NSPECS]);
+		}
+		return strlen(buf);
+	}
 	if (idx < nenum) {
 		return idx2str(idx, SF, buf);
 	}
@@ -800,7 +820,6 @@ unit_F_null(uint64_t idx)
 }
 
 /* a child died without a word */
-static char g_mode;
 static void
 on_death(uint64_t idx, uint64_t sub, int st)
 {
@@ -821,6 +840,8 @@ run_unit(char mode, uint64_t idx)
 	case 'I': return unit_I(idx);
 	case 'D': return unit_D(idx);
 	case 'F': return unit_F(idx);
+	case 'S': return unit_F(idx);
+	case 'Q': return unit_P(idx);
 	case 'N': return unit_F_null(idx);
 	}
 	return 0;
@@ -890,6 +911,7 @@ main(int argc, char *argv[])
 			if (sscanf(ex.cas, "U %c %llu %llu", &md, &idx, &sub) == 3) {
 				g_maxlen = md == 'F' ? lenF : md == 'P' ? lenP : lenI;
 				g_nenum = nstrings(g_maxlen);
+				g_mode = md;
 				printf("  running case %llu of string #%llu of mode %c in this process\n", sub, idx, md);
 				fflush(stdout);
 				xb_skip_upto = sub - 1;
@@ -906,23 +928,25 @@ main(int argc, char *argv[])
 		"(the text dt_strfdt prints for it and every truncation of that text + %d fixed texts incl. a control byte and 300 digits) x {dt_strpdt,dt_strpd,dt_strpt}. "
 		"I: string over {2 0 1 - : T W b SPC @ + 0x01} as input x %d formats (incl. none) x the 3 parsers, and as duration for dt_strpdtdur/dt_strpddur; "
 		"D: string over {1 9 0 - + d m o w r s /} as duration. F: format string x %d date/time values (one per held representation) / %d+%d durations x every buffer size 0..%d "
-		"x {dt_strfdt,dt_strfd,dt_strft,dt_strfdtdur,dt_strfddur}. Every string sits in a block of exactly its size (ASan red zone before the first and behind the last byte), "
+		"x {dt_strfdt,dt_strfd,dt_strft,dt_strfdtdur,dt_strfddur}. Q/S: additionally every specifier of the grammar (%d forms incl. modifiers, suffixes, truncated ones) "
+		"alone and every ordered pair of them as format, for the parsers (Q) and the formatters (S), same texts / values / sizes. Every string sits in a block of exactly its size (ASan red zone before the first and behind the last byte), "
 		"the output buffer has exactly bsz bytes. Oracles: no ASan/bounds report, no fatal signal, returns within 1 s, return value <= bsz, no byte outside the buffer changed, "
 		"parser answer and end pointer independent of the bytes behind the terminators (two fills) and end pointer inside the text, formatter output independent of the bytes "
 		"behind the format's terminator. non-trivial = case with at least one report. Not judged: WHICH value a parser returns (C09) and whether partial dates are dates.",
-		(int)NNAMED, NFIXED, NINFMT, NVAL, NDTDUR, NDDUR, BSZ_MAX);
+		(int)NNAMED, NFIXED, NINFMT, NVAL, NDTDUR, NDDUR, BSZ_MAX, (int)XC_NSPECS);
 	ex_meta("bound", "format strings for the parsers: length <= %d (%llu strings); input strings: length <= %d (%llu) ; duration strings: length <= %d; "
-		"format strings for the formatters: length <= %d (%llu strings) x all sizes 0..%d",
-		lenP, (unsigned long long)nstrings(lenP), lenI, (unsigned long long)nstrings(lenI), lenI, lenF, (unsigned long long)nstrings(lenF), BSZ_MAX);
+		"format strings for the formatters: length <= %d (%llu strings) x all sizes 0..%d; specifier list: %d singles + %d ordered pairs (both tiers)",
+		lenP, (unsigned long long)nstrings(lenP), lenI, (unsigned long long)nstrings(lenI), lenI, lenF, (unsigned long long)nstrings(lenF), BSZ_MAX, (int)XC_NSPECS, (int)(XC_NSPECS * XC_NSPECS));
 
 	{
-		static const struct { char mode; int batch; } plan[] = {{'N', 1}, {'P', 1024}, {'I', 2048}, {'D', 8192}, {'F', 128}};
+		static const struct { char mode; int batch; } plan[] = {{'N', 1}, {'Q', 256}, {'S', 32}, {'P', 1024}, {'I', 2048}, {'D', 8192}, {'F', 128}};
 		for (size_t k = 0; k < sizeof(plan) / sizeof(*plan) && !ex_expired(); k++) {
 			uint64_t total;
 			g_mode = plan[k].mode;
 			g_maxlen = g_mode == 'F' ? lenF : g_mode == 'P' ? lenP : lenI;
 			g_nenum = nstrings(g_maxlen);
-			total = g_mode == 'N' ? 1 : g_nenum + ((g_mode == 'P' || g_mode == 'F') ? NNAMED : 0);
+			total = g_mode == 'N' ? 1 : (g_mode == 'S' || g_mode == 'Q') ? XC_NSPECS + XC_NSPECS * XC_NSPECS :
+				g_nenum + ((g_mode == 'P' || g_mode == 'F') ? NNAMED : 0);
 			for (uint64_t lo = 0; lo < total && !ex.expired; lo += (uint64_t)plan[k].batch, slice++) {
 				uint64_t hi = lo + (uint64_t)plan[k].batch < total ? lo + (uint64_t)plan[k].batch : total;
 				if (!ex_mine(slice)) {
